@@ -276,7 +276,9 @@ impl Planner {
                 (false, true, false) => 20,
                 (false, false, false) => 1,
                 (true, true, false) => 600,
-                (true, false, false) => 8,
+                // thorough: k = 3 for filter-passing bases, k = 2 marks the light
+                // blocks (rejected symbols): one run per cover
+                (true, false, false) => if cc.k >= 3 { 8 } else { 1 },
             };
             for j in 0..cc.count {
                 // j = 0 is the trivial (1-sheeted) cover: covered by B1-B3
